@@ -38,7 +38,12 @@ def run(ctx):
     for rj in prej:
         b = rj.get("build") or {}
         r = rj["record"]
-        ctx.report("roundtrip:%s:%s:%s" % (b.get("pkg"), b.get("cfg"), r.get("pass", "initial")),
+        key = "roundtrip:%s:%s:%s" % (b.get("pkg"), b.get("cfg"), r.get("pass", "initial"))
+        if r.get("rt_parse") == "forward-ref":
+            # one mechanism, however many IR states show it: the IR parser builds blocks in textual order and
+            # cannot resolve a value used in a block printed before the (dominating) block that defines it
+            key = "ir-text-forward-reference"
+        ctx.report(key,
                    "IR text round trip failed after %s: parse=%s reparse-fixpoint=%s verify=%s" % (
                        r.get("pass", "initial"), r.get("rt_parse"), r.get("rt_idem"), r.get("rt_verify")), rj)
     stages = sum(1 for e in evs if e["ev"] in ("Pass", "Start"))
